@@ -290,6 +290,24 @@ def replay(rec):
         check_reported(rec, r3, free, fidx, out, 'with bootstrap: ')
         if r3.data.bootstrap is None or np.asarray(r3.data.bootstrap).shape != (4, len(free)):
             out.append(dict(what='with bootstrap: replications matrix', got=None if r3.data.bootstrap is None else list(np.asarray(r3.data.bootstrap).shape)))
+    if rec['algo'] == 'simple_bounds':
+        # an estimation that is stopped early (one iteration): whatever the convergence report says, the reported figures
+        # are those of the likelihood at the returned point and the formulas' starting values are the returned estimates
+        b4, betas4, _ = build(rec)
+        b4.max_iterations = 1
+        r4 = b4.estimate()
+        n += 1
+        check_reported(rec, r4, free, fidx, out, 'stopped early: ')
+        est4 = r4.get_beta_values()
+        if float(r4.data.logLike) < fq(rec['ll_start']) - 1e-9:
+            out.append(dict(what='stopped early: final log likelihood below the initial one', got=float(r4.data.logLike), initial=fq(rec['ll_start'])))
+        for p_, be in enumerate(betas4):
+            p = p_ % len(NAMES)
+            want_ = fq(rec['start'][p]) if rec['fixed'][p] else est4.get(NAMES[p])
+            if be.initValue != want_:
+                out.append(dict(what='stopped early: starting value of the formulas after the estimation', name=NAMES[p], got=be.initValue, want=want_,
+                                converged=bool(r4.algorithm_has_converged())))
+                break
     # recomputed through the library as well
     b2, _, _ = build(rec)
     n += 1
